@@ -142,6 +142,55 @@ def r6_target_derivation(ctx):
            "the target is taken apart as an absolute URI only under starts_with(\"http://\") / starts_with(\"https://\")" if not bad else
            "the request target is searched/sliced for a URI scheme without having been tested with starts_with(\"http://\"|\"https://\") (line %s): an origin-form request whose path or query contains `://` "
            "(e.g. /login?next=http://elsewhere/cb) is routed to the embedded host instead of its Host header" % bad[0].line)
+    # the Host header supplies the destination only for a target that is not in absolute form (RFC 7230 5.4: the request
+    # target's authority wins)
+    sw_false = {}
+    for c in conds.all():
+        if c.kind == "bool" and is_call_term(c.term, "str::starts_with", "::starts_with") and var_name(c.term[3][0]) == tgt and ("http://" in fmt(c.term[3][1]) or "https://" in fmt(c.term[3][1])):
+            lit = "https" if "https://" in fmt(c.term[3][1]) else "http"
+            sw_false.setdefault(lit, [])
+            sw_false[lit] += c.edges_for(False)
+    host_defs = []
+    for l in body.debug:
+        if body.lty(l).get("s") != "std::string::String":
+            continue
+        for d in body.defs().get(l, []):
+            t_ = o._def(d, (), 0, frozenset())
+            from .common import phi_alts
+            direct = all((isinstance(a, tuple) and a[0] == "agg" and a[2] in ("Some", "None")) or is_call_term(a, "::to_string", "::trim", "::strip_prefix", "::to_owned", "::clone") for a in phi_alts(t_))
+            if direct and any(is_call_term(s, "str::strip_prefix", "::strip_prefix") for s in subterms(t_)) and d[0] in ("assign", "call"):
+                # only assignments to the variable that feeds split_host_port (the destination host)
+                host_defs.append((l, d))
+    shp_all = calls_norm(body, "http_proxy::split_host_port")
+    dest_locals = set()
+    for c in shp_all:
+        for s in subterms(o.of_operand(c.args[0])):
+            if isinstance(s, tuple) and s[0] == "var" and len(s) > 2:
+                dest_locals.add(s[2])
+    dest_alts = [fmt(o.of_operand(c.args[0])) for c in shp_all]
+    bad_h = []
+    n_h = 0
+    for l, d in host_defs:
+        # is this String the one handed to split_host_port (possibly through a phi)?
+        if not any("strip_prefix" in a for a in dest_alts):
+            continue
+        defs_block = d[1]
+        feeds = any(("strip_prefix" in a) for a in dest_alts)
+        if not feeds:
+            continue
+        # the destination variable itself is the one whose defs include String::new() and to_string(index(target..))
+        others = [o._def(x, (), 0, frozenset()) for x in body.defs().get(l, [])]
+        if not any(any(is_call_term(s, "::index") for s in subterms(t2)) or is_call_term(t2, "String::new") for t2 in others):
+            continue
+        n_h += 1
+        if not all(cfg.edges_dominate(e, defs_block) for e in sw_false.values() if e):
+            bad_h.append(d)
+    if n_h:
+        ctx.ob("R17.6", "determine_target:Host-header-only-for-non-absolute-target", not bad_h, "",
+               "the destination is taken from the Host header only on the false edges of both scheme tests" if not bad_h else
+               "the Host header can overwrite the destination although the request target is in absolute form: `GET http://a:8080/ ` with `Host: b` is dialled at b:80 instead of a:8080")
+    else:
+        ctx.missing("R17.6", "assignment of the destination host from the Host header in determine_target")
     # default ports: CONNECT 443; plain 80; https 443
     shp = calls_norm(body, "http_proxy::split_host_port")
     consts = sorted({const_value(o.of_operand(c.args[1])) for c in shp if const_value(o.of_operand(c.args[1])) is not None})
